@@ -20,6 +20,7 @@ DRIVERS = {
     'for_loop': {'vm': 'iteration'},
     'switch_ops': {'vm': 'iteration'},
     'if_then': {'vm': 'iteration'},
+    'lazy_logic': {'vm': 'iteration'},
     'config_ops': {'vm': 'config_ops'},
     'waituntil': {'vm': 'waituntil'},
     'operators_total': {'vm': 'operators_total'},
